@@ -4,7 +4,7 @@
 set -u
 PROP=$1; K=$2
 SRC=/tmp/seed/$PROP.out
-OUT=/verif/seeded/$PROP-$K
+OUT=/verif/seeded/$PROP-${3:-$K}
 D=$(mktemp -d /dev/shm/confirm.XXXXXX)
 rsync -a --exclude .git --exclude storage --exclude '*.pyc' /repo/ "$D/repo/" >/dev/null
 mkdir -p "$D/cwd1" "$D/cwd2" "$OUT"
